@@ -134,29 +134,33 @@ CLAIMED["C05"] = dict(
 
 CLAIMED["C06"] = dict(
     text="Theorems (coq/Properties/C06.v) on a labelled-transition-system model of the multi-core runner (reader, W workers, need-work queue as a bag, per-worker FIFO pipes, "
-    "collecting main process with the ordered chunk writer; a schedule is an arbitrary label sequence): for every number of workers, every chunking, every schedule and every fault "
-    "pattern the blocks written so far are exactly the processed first `cur` chunks in input order (C06_written_is_prefix), and with the pipeline model as the worker function they are "
-    "what one core writes to that destination for those reads (C06_multicore_prefix); files and counts of a chunked input are the concatenation / sum over the chunks "
-    "(C06_files_chunked, C06_counts_chunked, C06_report_chunked, C06_tally_merge); every schedule is finite (C06_schedules_bounded). PARTIAL: that a fault-free run which finishes has written "
-    "ALL chunks and merged the statistics of all of them, and that a non-finished state always has an enabled step, are stated in Proofs/RunnerLive.v (inv2) but not yet theorems; they "
-    "rest on the trace validation and the differential. Tie to the code: a guarded add-only hook in runners.py records every protocol event of real -j N runs; the extracted model replays "
-    "each recorded trace and must accept every event, end finished, with all chunks written in order and all chunk statistics merged; plus the one-core vs 2-4-core differential "
+    "collecting main process with the ordered chunk writer; a schedule is an arbitrary label sequence). Main theorem C06_final: for every W > 0, every chunking, every schedule, a run "
+    "that finishes has written the blocks of ALL chunks in input order and -- statistics forming a commutative monoid -- has merged exactly the statistics of all chunks, whatever worker "
+    "processed which chunk and in whatever order results arrived; C06_multicore_final instantiates it with the pipeline model: every destination holds what one core writes there for the "
+    "whole input and the merged record count is the one-core count. Also: at every moment the blocks written are the in-order prefix (C06_written_is_prefix, C06_multicore_prefix); files, "
+    "counts, reports and tallies of a chunked input are the concatenation / sum over the chunks (C06_files_chunked, C06_counts_chunked, C06_report_chunked, C06_tally_merge); every schedule "
+    "is finite (C06_schedules_bounded) and no reachable non-terminal state is stuck (C06_no_deadlock). Proof: five invariants over all schedules (RunnerSafety.inv, and binv/oinv/pinv/kinv/"
+    "tinv/cinv/sinv in Proofs/RunnerLive.v, RunnerStats.v). Tie to the code: a guarded add-only hook in runners.py records every protocol event of real -j N runs; the extracted model "
+    "replays each recorded trace and must accept every event, end finished, with all chunks written in order and all chunk statistics merged; plus the one-core vs 2-4-core differential "
     "(x --buffer-size x perturbed schedules) on all output files byte-wise and the JSON report. Genuine defects found and repaired: F6 (af2c43b), F21 interleaved FASTA on several cores (41c57e9).",
-    technique="Coq proof (invariant over all schedules of an LTS model of the runner; induction over chunks for the pipeline) + trace-validation correspondence via a guarded hook + one-core/multi-core differential",
+    technique="Coq proof (invariants over all schedules of an LTS model of the runner, AC rewriting for the statistics; induction over chunks for the pipeline) + trace-validation correspondence via a guarded hook + one-core/multi-core differential",
     design="6/C06",
-    note=TB + " Pipes and the queue are modelled as unbounded lists / a bag (blocking only removes schedules); process start-up, pickling and OS scheduling are not modelled. "
+    note=TB + " Pipes and the queue are modelled as unbounded lists / a bag (blocking only removes schedules); process start-up, pickling and OS scheduling are not modelled; that the real "
+    "Statistics.__iadd__ is a commutative monoid operation is an assumption of C06_final, tested by the differential on the JSON report. AAC_tactics is used for AC rewriting (no axioms). "
     "The OS picks the schedules that are actually observed; CUTADAPT_VERIF_SCHED perturbs them with seeded micro-sleeps.",
 )
 
 CLAIMED["C12"] = dict(
-    text="Theorems (coq/Properties/C12.v) on the runner model with fault parameters (a chunk that makes the worker raise, a reader that raises before chunk k, a failing format detection): "
-    "under every fault pattern and schedule the blocks written are complete, correctly processed chunks in input order (C12_written_before_error); every schedule is finite "
-    "(C12_schedules_bounded). PARTIAL: 'a run that finishes without failure met no fault' and 'no deadlock' are not yet theorems; the single-core path and the mapping of exceptions to the "
-    "exit status in cli.main are not modelled. They rest on the fault enumeration: truncation of plain (thorough: every byte position) and gzip inputs, byte flips in the gzip stream, seven "
-    "single-record corruptions at first/middle/last record, paired inputs with missing/renamed mates and truncated R1/R2/interleaved files, with one core and 2-4 cores, 60 s time bound; "
-    "oracle: own strict FASTQ parser decides well-formedness; malformed => non-zero exit, message, no hang, every output a record-boundary prefix of the intact run's output; well-formed => "
-    "exit 0 and exactly the intact run's records for the reads present. Faulty multi-core traces are replayed in the extracted model. Genuine defect found and repaired: F22 hang on corrupt gzip with several cores (79df809).",
-    technique="Coq proof (invariant over all schedules and fault patterns of the runner LTS) + trace-validation correspondence of faulty runs + fault enumeration with an independent well-formedness oracle",
+    text="Theorems (coq/Properties/C12.v) on the runner model with fault parameters (a chunk that makes the worker raise, a reader that raises before chunk k, a failing format detection), "
+    "for every fault pattern and every schedule: a run that finishes without failure has met no fault and has handed out all chunks (C12_fail_visible: status 0 only for well-formed input) "
+    "and then has written every block (C12_complete_when_ok); the blocks written before an error are complete, correctly processed chunks in input order (C12_written_before_error); a "
+    "reachable state that is neither finished nor failed always has an enabled step (C12_no_deadlock) and every schedule is finite (C12_schedules_bounded): no hang in the protocol. "
+    "PARTIAL: the single-core path, the mapping of exceptions to the exit status in cli.main, and what dnaio counts as malformed are not modelled. They rest on the fault enumeration: "
+    "truncation of plain (thorough: every byte position) and gzip inputs, byte flips in the gzip stream, seven single-record corruptions at first/middle/last record, paired FASTQ/FASTA inputs "
+    "with missing/renamed mates and truncated R1/R2/interleaved files, with one core and 2-4 cores, 60 s time bound; oracle: own strict parsers decide well-formedness; malformed => non-zero "
+    "exit, message, no hang, every output a record-boundary prefix of the intact run's output; well-formed => exit 0 and exactly the intact run's records for the reads present. Faulty "
+    "multi-core traces are replayed in the extracted model. Genuine defect found and repaired: F22 hang on corrupt gzip with several cores (79df809).",
+    technique="Coq proof (invariants over all schedules and fault patterns of the runner LTS: pipe shapes, pill accounting, fault tracking) + trace-validation correspondence of faulty runs + fault enumeration with an independent well-formedness oracle",
     design="6/C12",
     note=TB + " Modelled, not verified: exception propagation inside a process, termination of children by the OS, closing of output files by cli.main; dnaio's parser decides what is an error.",
 )
